@@ -13,7 +13,7 @@ PROP = {
              # loop): the constant default stays within the const evaluator's step budget for every length
              {"tag": "c19big", "bin": "c19p", "no_default_features": True, "args": ["--big"], "model": False, "timeout": 600}],
     "mismatch_is_failing": True,
-    "rule": "every length type N in 0..=64 and {97,127,128,255,256,1023,1024,1025 (= Sum<U1024,U1>)} plus six non-normalised lengths (leading B0 digits: 0,0,1,2,3,10), the digit list read off the type itself; x element types u8, u64, [u8;3], GenericArray<u8,U3>, Fd (zero {0,0} / default {7,9}), Keep (zeroize keeps the id field), W (one byte, default 0x5A), GenericArray<W,U3>, KeepBig, Inv (zeroized value 0xFF), Page (5000 bytes), Cnt (zeroize counts: x -> x+1, so an element reached twice shows); x {const_default() at run time, DEFAULT in a const block, Default::default(), zeroize() on all-ones and seeded random prior contents (thorough: 12-60 seeds, index pattern, all zero, a single non-zero element; debug and release builds)}; plus 27 `const` items compared element-wise by the compiler; run c19p: const items (and a static from DEFAULT) of a non-Copy struct and of a type with a destructor, one separately compiled program per length (16 lengths, thorough 52). distinct = distinct CASE lines; non-trivial = N > 0 (the observable has an element)",
+    "rule": "every length type N in 0..=64 and {97,127,128,255,256,1023,1024,1025 (= Sum<U1024,U1>)} plus six non-normalised lengths (leading B0 digits: 0,0,1,2,3,10), the digit list read off the type itself; x element types u8, u64, [u8;3], GenericArray<u8,U3>, Fd (zero {0,0} / default {7,9}), Keep (zeroize keeps the id field), W (one byte, default 0x5A), GenericArray<W,U3>, KeepBig, Inv (zeroized value 0xFF), Page (5000 bytes), Cnt (zeroize counts: x -> x+1, so an element reached twice shows); x {const_default() at run time, DEFAULT in a const block, Default::default(), zeroize() on all-ones and seeded random prior contents (thorough: 12-60 seeds, index pattern, all zero, a single non-zero element; debug and release builds)}; plus 27 `const` items compared element-wise by the compiler; run c19p: const items (and a static from DEFAULT) of a non-Copy struct and of a type with a destructor, one separately compiled program per length (16 lengths, thorough 52). Also Lv (a field with a lifetime), K8 (align 8) and Dz (zero-sized with Drop; const_default only) elements, zeroize through a concrete and a boxed array (ops 5 and 6); run c19call: callers generic over T: Zeroize / ConstDefault and over N, elements that borrow; run c19big: statics of 2^19 / 2^20 elements built from const_default() and DEFAULT (direct oracles at four places; the const evaluator's step budget must suffice). distinct = distinct CASE lines; non-trivial = N > 0 (the observable has an element)",
     "nontrivial": lambda case, obs: len(obs.split()) > 1,
     "manifest": {
         "design_ref": "DESIGN.md section 7, C19",
